@@ -763,7 +763,19 @@ func RemoveAll(path string) error {
 	return &PathError{Op: "unlinkat", Path: path, Err: e}
 }
 
+// Rename follows the standard library: a directory as the new name is refused
+// with EEXIST before the system call is made.
 func Rename(oldpath, newpath string) error {
+	if fi, err := Lstat(newpath); err == nil && fi.IsDir() {
+		if ofi, err := Lstat(oldpath); err != nil {
+			if pe, ok := err.(*PathError); ok {
+				err = pe.Err
+			}
+			return &LinkError{Op: "rename", Old: oldpath, New: newpath, Err: err}
+		} else if newpath == oldpath || !SameFile(fi, ofi) {
+			return &LinkError{Op: "rename", Old: oldpath, New: newpath, Err: syscall.EEXIST}
+		}
+	}
 	w, p, d, inert := Sys("rename", oldpath+" -> "+newpath, FaultsRename, 0)
 	if inert {
 		return &LinkError{Op: "rename", Old: oldpath, New: newpath, Err: syscall.EINTR}
